@@ -27,9 +27,6 @@ import (
 
 func init() {
 	logging.Root().SetHandler(logging.DiscardHandler())
-	// types.MakeSigner panics without a network id; the id the repo's own tests use.
-	params.InitNetworkId(params.NetworkIdForTestCase)
-
 	kit.Register(&kit.Check{
 		Prop: "C20", Name: "pool", World: "POOL", Level: "exploration",
 		Rule: "one run = one real core.TxPool with per-run scaled-down limits (AccountSlots 1-4, GlobalSlots 2-12, AccountQueue 1-5, GlobalQueue 2-12 or accounts*AccountQueue+1, Lifetime 90s-3h, " +
@@ -179,6 +176,9 @@ var bumps = []uint64{10, 1, 25, 100}
 var priceLimits = []uint64{1, 40, 96}
 
 func newWorld(r *kit.Run) *world {
+	// types.MakeSigner panics without a network id; the id the repo's own tests (and the other
+	// worlds) use. Idempotent.
+	params.InitNetworkId(params.NetworkIdForTestCase)
 	c := r.C
 	w := &world{r: r, c: c}
 	w.nAcc = c.Range("accounts", 2, maxAccounts)
